@@ -31,6 +31,7 @@ type CEnv struct {
 	lookup func(name string) (CV, bool) // extra resolver (loop locals)
 	qdepth int
 	nows   []*Term
+	calleeNows *[]*Term
 }
 
 type cevalErr struct{ msg string }
@@ -214,6 +215,15 @@ func (env *CEnv) ident(name string) CV {
 	}
 	if strings.HasPrefix(name, "now#") {
 		k, _ := strconv.Atoi(name[4:])
+		if env.calleeNows != nil {
+			// clock readings of a callee, seen from the call site: fresh instants appended to the caller's
+			// ghost clock sequence (so the caller's own contract can name them in execution order)
+			for len(*env.calleeNows) < k {
+				t, _ := modelNow(env.e, nil, nil, nil)
+				*env.calleeNows = append(*env.calleeNows, t.(*Term))
+			}
+			return CV{V: (*env.calleeNows)[k-1], T: timeType(env.e.P)}
+		}
 		if k >= 1 && k <= len(env.e.root.nows) {
 			return CV{V: env.e.root.nows[k-1], T: timeType(env.e.P)}
 		}
@@ -245,6 +255,15 @@ func (env *CEnv) ident(name string) CV {
 	}
 	cfail("unknown identifier %q", name)
 	return CV{}
+}
+
+func durationType(p *Program) types.Type {
+	for _, pk := range p.SSA.AllPackages() {
+		if pk.Pkg.Path() == "time" {
+			return pk.Pkg.Scope().Lookup("Duration").Type()
+		}
+	}
+	return types.Typ[types.Int64]
 }
 
 func timeType(p *Program) types.Type {
@@ -566,6 +585,22 @@ func (env *CEnv) binary(x *CExpr) CV {
 			o = b
 		}
 		var eq *Term
+		if mp, ok := o.V.(*Ptr); ok && (mp.Kind == PMulti || len(mp.Path) > 0 || mp.Kind == PCell || mp.Kind == PGlobal) {
+			// pointers that are not plain heap references: nil only through a nil heap alternative
+			var alts []*Term
+			if mp.Kind == PMulti {
+				for _, a := range mp.Alts {
+					if (a.P.Kind == PHeap || a.P.Kind == PArr) && len(a.P.Path) == 0 {
+						alts = append(alts, And(a.G, Eq(a.P.Ref, IntLit(0))))
+					}
+				}
+			}
+			eq = Or(alts...)
+			if x.Op == "!=" {
+				eq = Not(eq)
+			}
+			return CV{V: eq, T: boolT}
+		}
 		ot := env.asTerm(o)
 		switch ot.Sort {
 		case SInt:
@@ -729,6 +764,8 @@ func (env *CEnv) quant(x *CExpr) CV {
 			sort = SInt
 		case "Seq":
 			sort = "BSeq"
+		case "Time":
+			sort, T = STime, timeType(env.e.P)
 		case "string":
 			sort, T = SStr, types.Typ[types.String]
 		default:
@@ -999,6 +1036,18 @@ func (env *CEnv) pureMethod(recv CV, name string, args []*CExpr) (CV, bool) {
 		case "Equal":
 			o := env.asTerm(env.eval(args[0]))
 			return CV{V: Eq(t, o), T: types.Typ[types.Bool]}, true
+		case "Sub":
+			o := env.asTerm(env.eval(args[0]))
+			d := BVSub(t, o)
+			maxD := BVLit(mask(63), 128)
+			minD := BVNeg(BVAdd(maxD, BVLitI(1, 128)))
+			r := Ite(SGt(d, maxD), BVLit(mask(63), 64), Ite(SLt(d, minD), BVLit(new(big.Int).Lsh(big.NewInt(1), 63), 64), Resize(d, 64, true)))
+			return CV{V: r, T: durationType(env.e.P)}, true
+		case "Add":
+			o := env.adapt(env.eval(args[0]), BV(64))
+			return CV{V: BVAdd(t, Resize(o, 128, true)), T: recv.T}, true
+		case "UTC":
+			return recv, true
 		}
 	}
 	return CV{}, false
